@@ -45,6 +45,9 @@ THEOREMS = [
     "Nix.C18.C18_shape_collect",
     "Nix.C18.C18_shape_tests",
     "Nix.C18.C18_shape_conversion",
+    "Nix.C18.C18_inside_never_rescheduled",
+    "Nix.C18.C18_inside_dim",
+    "Nix.C18.C18_inside_counterexample",
 ]
 ASSUMPTIONS = [
     "interruption points are those the property names: before a task and between individual property / dimension "
@@ -53,7 +56,8 @@ ASSUMPTIONS = [
     "of creation-order-tracked groups in creation order, a closed file is on disk (interruption by exception or "
     "os._exit between two opens)",
     "uuid4 ids are fresh; ids/timestamps made by the upgrade are compared up to the invocation that made them",
-    "uncertainties are finite floats (no NaN/inf); an empty `definition`/`unit` attribute text reads as 'not set'",
+    "doubles are modelled as exact rationals, NaN and +-inf (both zeros are one value; NaN payloads are not "
+    "distinguished); an empty `definition`/`unit` attribute text reads as 'not set'",
     "the file has the groups /data and /metadata (every NIX writer creates them); HDF5 link names are unique per "
     "group (model hypothesis WF); id texts with blanks/underscores/sign characters are outside the is_uuid model",
 ]
@@ -217,7 +221,9 @@ def _write_array(das, a):
                 dim.create_dataset("ticks", data=np.array([float(Fraction(x)) for x in d["ticks"]], dtype=np.float64))
             elif kind == "alias":
                 dim[a["id"]] = g
-            elif kind == "link":
+            elif kind in ("link", "both"):
+                if kind == "both":      # cut between the creation of the link group and the removal of the alias
+                    dim[a["id"]] = g
                 lk = mkgrp(dim, "link")
                 lk.attrs["entity_id"] = d["link_id"]
                 lk.attrs["data_object_type"] = "DataArray"
@@ -476,10 +482,16 @@ def fake_time(run):
 
 @contextlib.contextmanager
 def instrumented(run, k, runs, kill=False, info=None):
-    """patch nixio.cmd.upgrade's h5py namespace, nixio.util.create_id / now_int for one invocation"""
+    """patch nixio.cmd.upgrade's h5py namespace, nixio.util.create_id / now_int for one invocation; `k`: None (no
+    interruption), a step index (interrupt before that step's mode-"a" open), or [k, c] (interrupt inside step k,
+    at its (c+1)-th create_property call -- outside the property's quantifier, correspondence only)"""
     nix, U = _nix()
     info = info if info is not None else {}
-    info.update({"opens": 0, "exc": None, "tasks": None})
+    info.update({"opens": 0, "exc": None, "tasks": None, "creates": 0})
+    inside = None
+    if isinstance(k, (list, tuple)):
+        inside = (k[0], k[1])
+        k = None
 
     def hook():
         if k is not None and info["opens"] == k:
@@ -487,8 +499,15 @@ def instrumented(run, k, runs, kill=False, info=None):
                 os._exit(17)
             raise _Interrupt("interrupted before step %d" % k)
         info["opens"] += 1
+        info["creates"] = 0
     real_h5, real_id, real_now = U.h5py, nix.util.create_id, nix.util.now_int
-    real_pt, real_ct = U.process_tasks, U.collect_tasks
+    real_pt, real_ct, real_cp = U.process_tasks, U.collect_tasks, U.create_property
+
+    def create_property(*a, **kw):
+        if inside is not None and info["opens"] == inside[0] + 1 and info["creates"] == inside[1]:
+            raise _Interrupt("interrupted inside step %d at create_property call %d" % inside)
+        info["creates"] += 1
+        return real_cp(*a, **kw)
 
     def create_id():
         i = real_id()
@@ -513,12 +532,14 @@ def instrumented(run, k, runs, kill=False, info=None):
     U.h5py = _H5Proxy(real_h5, hook)
     nix.util.create_id, nix.util.now_int = create_id, now_int
     U.process_tasks, U.collect_tasks = process_tasks, collect_tasks
+    if inside is not None:
+        U.create_property = create_property
     try:
         yield info
     finally:
         U.h5py = real_h5
         nix.util.create_id, nix.util.now_int = real_id, real_now
-        U.process_tasks, U.collect_tasks = real_pt, real_ct
+        U.process_tasks, U.collect_tasks, U.create_property = real_pt, real_ct, real_cp
 
 
 def describe_tasks(tasks):
@@ -889,7 +910,8 @@ def _gen_array(rng, used, aliasness):
             a["dims"].append({"kind": "range", "ticks": [_fs(x) for x in sorted(_dyadic(rng) for _ in range(3))],
                               "unit": rng.choice(UNITS[:4]), "label": rng.choice([None, "l"])})
         elif r < aliasness + 0.25:
-            a["dims"].append({"kind": "link", "link_id": _uid(rng), "unit": None, "label": None})
+            a["dims"].append({"kind": rng.choice(["link", "link", "both"]), "link_id": _uid(rng), "unit": None,
+                              "label": None})
         elif r < aliasness + 0.3:
             a["dims"].append({"kind": "bare", "unit": rng.choice([None, "u"]), "label": rng.choice([None, "l"])})
         elif r < aliasness + 0.5:
@@ -1031,7 +1053,17 @@ def run_cases(ctx, cases):
                 res[idx][1].append("model rejects the abstracted file: %s" % json.dumps(st)[:200])
                 continue
             n = len(st["ok"])
-            kss = c.get("ks") or histories_for(ctx.rng, n, exhaustive=(n <= 12 or not ctx.quick()))
+            kss = c.get("ks")
+            if not kss:
+                kss = histories_for(ctx.rng, n, exhaustive=(n <= 12 or not ctx.quick()))
+                # cuts inside a property conversion (model: interruptInside), then a re-run; and two cuts in a row
+                psteps = [j for j, s in enumerate(st["ok"]) if s[0] == "prop"]
+                pick = psteps if not ctx.quick() else ctx.rng.sample(psteps, min(len(psteps), 2))
+                for j in pick:
+                    for cc in (range(0, 7) if not ctx.quick() else ctx.rng.sample(range(0, 5), 2)):
+                        kss.append([[j, cc], None])
+                if len(psteps) > 1:
+                    kss.append([[psteps[0], ctx.rng.randrange(3)], [0, ctx.rng.randrange(3)], None, None])
             res[idx][2] = {"steps": n, "histories": len(kss), "states": 0, "kinds": sorted({s[0] for s in st["ok"]})}
             for ks in kss:
                 hist_cases.append(["history", c["lib"], i, ks])
@@ -1055,6 +1087,8 @@ def run_cases(ctx, cases):
             if any(x["err"] for x in impl):
                 res[idx][2]["errors"] = res[idx][2].get("errors", 0) + 1
             d = compare_history(mo, impl)
+            if any(isinstance(k, list) for k in hc[3]):
+                res[idx][2]["inside"] = res[idx][2].get("inside", 0) + 1
             res[idx][0] += 1
             res[idx][2]["states"] += len(impl)
             if d:
@@ -1225,6 +1259,7 @@ def correspondence(ctx):
         dist["states"] += info.get("states", 0)
         dist["errors"] += info.get("errors", 0)
         dist["stale_lists"] = dist.get("stale_lists", 0) + info.get("stale", 0)
+        dist["inside_cuts"] = dist.get("inside_cuts", 0) + info.get("inside", 0)
         v = ".".join(map(str, c["spec"]["version"]))
         dist["shape"][v] = dist["shape"].get(v, 0) + 1
         if info.get("steps", 0) > 1:
@@ -1243,7 +1278,8 @@ def correspondence(ctx):
                     "per-value extras, mid=new properties + alias range dimensions, mixed, current, newer; ids "
                     "absent/valid/empty/junk/braced/hex32/short); per file the uninterrupted run twice, an "
                     "interrupted run + re-run for every step index k (sampled when > 14 steps in quick), and "
-                    "double-interruption histories, and two task lists collected up front with the stale one processed after "
+                    "double-interruption histories, cuts inside a property conversion (at its c-th create_property call) "
+                    "followed by a re-run, and two task lists collected up front with the stale one processed after "
                     "the (interrupted / complete) first; every state abstracted with h5py and compared with the model "
                     "(steps, error class, return value, version, id, properties per group in container order, "
                     "arrays/dimensions/links, digest of everything else); model views vs nixio API before (old-layout "
@@ -1287,7 +1323,7 @@ def expected_content(spec):
         for a in b["arrays"]:
             dims = []
             for d in a["dims"]:
-                if d["kind"] in ("alias", "link"):
+                if d["kind"] in ("alias", "link", "both"):
                     dims.append({"type": "range", "ticks": list(a["data"]), "unit": a.get("unit"),
                                  "label": a.get("label")})
                 elif d["kind"] == "range":
